@@ -12,7 +12,6 @@ import (
 	"io"
 	"os"
 	"path/filepath"
-	"sort"
 	"strings"
 	"sync"
 	"testing"
@@ -38,22 +37,18 @@ func VResetGlobals() {
 
 func VSuppressed() bool { return proxyFailureSuppressedForReload() }
 
-func VProxyFailures() string {
+// VProxyFailures: address -> consecutive death count, entries with a positive count only (how the table
+// represents "no deaths recorded" — absent or zero — is not the property's business).
+func VProxyFailures() map[string]int32 {
 	globalProxyIpHealthTracker.Lock()
 	defer globalProxyIpHealthTracker.Unlock()
-	var ks []string
-	for k := range globalProxyIpHealthTracker.failures {
-		ks = append(ks, k)
-	}
-	sort.Strings(ks)
-	var sb strings.Builder
-	for i, k := range ks {
-		if i > 0 {
-			sb.WriteByte(',')
+	out := map[string]int32{}
+	for k, e := range globalProxyIpHealthTracker.failures {
+		if e.count > 0 {
+			out[k] = e.count
 		}
-		fmt.Fprintf(&sb, "%s:%d", strings.TrimPrefix(k, "addr"), globalProxyIpHealthTracker.failures[k].count)
 	}
-	return sb.String()
+	return out
 }
 
 func VConsts() string { return fmt.Sprintf("max=%d", maxConsecutiveFailures) }
@@ -153,19 +148,28 @@ func TestVerifC16Race(t *testing.T) {
 	out := map[string]*res{}
 	tcp4 := &NetworkType{L4Proto: consts.L4ProtoStr_TCP, IpVersion: consts.IpVersionStr_4}
 	udp6 := &NetworkType{L4Proto: consts.L4ProtoStr_UDP, IpVersion: consts.IpVersionStr_6, UdpHealthDomain: UdpHealthDomainData}
+	udp4 := &NetworkType{L4Proto: consts.L4ProtoStr_UDP, IpVersion: consts.IpVersionStr_4, UdpHealthDomain: UdpHealthDomainData}
 	variants := []struct {
-		name string
-		nt   *NetworkType
-		a, b func(d *Dialer, nt *NetworkType)
+		name    string
+		nt      *NetworkType
+		addr    string
+		predead bool
+		a, b    func(d *Dialer, nt *NetworkType)
 	}{
-		{"forced_vs_traffic_revival", tcp4,
+		// only exported entry points, so that inlining private helpers does not break the build
+		{"forced_vs_traffic_revival", udp4, "", true,
 			func(d *Dialer, nt *NetworkType) { d.ReportUnavailableForced(nt, nil) },
-			func(d *Dialer, nt *NetworkType) { d.informDialerGroupUpdate(d.markAvailableTraffic(nt)) }},
-		{"forced_vs_probe_success", udp6,
+			func(d *Dialer, nt *NetworkType) { d.ReportAvailableTraffic(nt) }},
+		{"forced_vs_probe_success", udp6, "", false,
 			func(d *Dialer, nt *NetworkType) { d.ReportUnavailableForced(nt, nil) },
 			func(d *Dialer, nt *NetworkType) {
 				_, _ = d.Check(&CheckOption{networkType: nt, CheckFunc: func(context.Context, *NetworkType) (bool, error) { return true, nil }})
 			}},
+		// two racing counted failures on a TCP slot (threshold 1): ONE death, one transition callback, one
+		// death recorded for the address
+		{"two_racing_failures", tcp4, "race.example:443", false,
+			func(d *Dialer, nt *NetworkType) { d.ReportUnavailableTransactional(nt, errors.New("timeout")) },
+			func(d *Dialer, nt *NetworkType) { d.ReportUnavailableTransactional(nt, errors.New("refused")) }},
 	}
 	for _, v := range variants {
 		r := &res{Rounds: rounds / len(variants), FirstRound: -1}
@@ -173,9 +177,23 @@ func TestVerifC16Race(t *testing.T) {
 		for i := 0; i < r.Rounds; i++ {
 			var bitMu sync.Mutex
 			bit := true
-			d := NewDialer(c16RaceDialer{}, opt, InstanceOption{DisableCheck: true}, &Property{Property: D.Property{Name: "n"}})
+			deadCbs := 0
+			resetGlobalProxyState()
+			d := NewDialer(c16RaceDialer{}, opt, InstanceOption{DisableCheck: true}, &Property{Property: D.Property{Name: "n", Address: v.addr}})
+			if v.predead {
+				d.ReportUnavailableForced(v.nt, nil)
+			}
+			d.RegisterAliveTransitionCallback(func(_ *NetworkType, alive bool) {
+				if !alive {
+					bitMu.Lock()
+					deadCbs++
+					bitMu.Unlock()
+				}
+			})
 			set := NewAliveDialerSet(log, "g", v.nt, 0, consts.DialerSelectionPolicy_MinLastLatency, []*Dialer{d}, []*Annotation{{}},
-				func(b bool) { bitMu.Lock(); bit = b; bitMu.Unlock() }, true)
+				func(b bool) { bitMu.Lock(); bit = b; bitMu.Unlock() }, false)
+			set.NotifyLatencyChange(d, d.MustGetAlive(v.nt))
+			bit = set.Len() == 1
 			d.RegisterAliveDialerSet(set)
 			var wg sync.WaitGroup
 			wg.Add(2)
@@ -183,11 +201,20 @@ func TestVerifC16Race(t *testing.T) {
 			go func() { defer wg.Done(); v.b(d, v.nt) }()
 			wg.Wait()
 			alive, in := d.MustGetAlive(v.nt), set.Len() == 1
-			if alive != in {
+			bad := alive != in
+			detail := fmt.Sprintf("node alive=%v, set lists it=%v", alive, in)
+			if v.name == "two_racing_failures" {
+				pf := VProxyFailures()[v.addr]
+				if deadCbs != 1 || pf != 1 || alive {
+					bad = true
+					detail = fmt.Sprintf("one death expected: alive=%v, not-alive callbacks=%d, deaths recorded for the address=%d", alive, deadCbs, pf)
+				}
+			}
+			if bad {
 				r.NodeVsSet++
 				if r.FirstRound < 0 {
 					r.FirstRound = i
-					r.Detail = fmt.Sprintf("node alive=%v, set lists it=%v", alive, in)
+					r.Detail = detail
 				}
 			}
 			if bit != in {
@@ -196,6 +223,7 @@ func TestVerifC16Race(t *testing.T) {
 			_ = d.Close()
 		}
 	}
+	resetGlobalProxyState()
 	b, _ := json.MarshalIndent(out, "", " ")
 	_ = os.WriteFile(filepath.Join(VOutDir(), "c16r.json"), b, 0o644)
 }
